@@ -145,7 +145,7 @@ BCOOMatrix* BCOOMatrix::transpose()
 
 CSRMatrix* CSRMatrix::transpose()
 {
-    CSCMatrix* T_csc = new CSCMatrix(n_rows, n_cols, idx1, idx2, vals); 
+    CSCMatrix* T_csc = new CSCMatrix(n_cols, n_rows, idx1, idx2, vals); 
     CSRMatrix* T = T_csc->to_CSR();
     delete T_csc;
     return T;
@@ -161,7 +161,7 @@ BSRMatrix* BSRMatrix::transpose()
 
 CSCMatrix* CSCMatrix::transpose()
 {
-    CSRMatrix* T_csr = new CSRMatrix(n_rows, n_cols, idx1, idx2, vals); 
+    CSRMatrix* T_csr = new CSRMatrix(n_cols, n_rows, idx1, idx2, vals); 
     CSCMatrix* T = T_csr->to_CSC();
     delete T_csr;
     return T;
